@@ -544,7 +544,7 @@ func TestRandom(t *testing.T) {
 	rec := ev.New(t, prop, "random-trees",
 		"rapid: trees of depth <=4, fan-out <=4 over {a,b,c,ab} (directories, files, links), .dockerignore lists of 0..6 patterns (literals, *, ?, **, classes, leading '/', '!', trailing '/', './', surrounding whitespace; 70% derived from paths of the tree), optionally a peer tree derived by edits and a random set of ancestor directories; core.Scan with the Docker ignorer + ReifyPhantomDirectories compared with the reference walk; "+rule)
 	known := knownClass(rec)
-	ev.Check(t, rec, 6000, 80000, func(rt *rapid.T) {
+	ev.Check(t, rec, 4000, 80000, func(rt *rapid.T) {
 		c := &Case{Alpha: &Node{Kind: "dir"}}
 		var paths, dirs []string
 		c.Alpha.Children = genTree(rt, 0, "", &paths, &dirs)
